@@ -18,7 +18,9 @@ class ColorLegend:
 
 
 # ---- rustworkx-backed node wrapper to mimic needed anytree.Node API ----
-@dataclass
+# eq=False: nodes are compared (and looked up in lists of nodes) by identity. A generated field-wise __eq__ would compare
+# the wrapped expressions with their overloaded ``==`` and read ``id_``, which is declared but never assigned.
+@dataclass(eq=False)
 class RWXNode:
     name: str
     weight: str = field(default='')
